@@ -251,7 +251,7 @@ def snapshot_measures(o, f, n):
 class World:
     """The real objects a behaviour acts on, plus what the client would hold."""
 
-    def __init__(self, scratch_dir, n_override=None, rate=1.0, dt=None, F0=None):
+    def __init__(self, scratch_dir, n_override=None, rate=1.0, dt=None, F0=None, solver_kw=None):
         import pydrex
 
         self.pydrex = pydrex
@@ -269,6 +269,9 @@ class World:
         self.F0 = np.eye(3) if F0 is None else np.asarray(F0, dtype=float)   # deformation gradient the client starts from
         self.dt = (dt if dt is not None else DT) / rate
         self.n_override = n_override
+        # documented pass-through keyword arguments of the update calls (handed on to the ODE solver); the same ones
+        # are given to every per-mineral and every bulk update of this world
+        self.solver_kw = dict(solver_kw or {})
         self.events = []
 
     # -- helpers
@@ -347,7 +350,7 @@ class World:
             get_regime = lambda t, x: r0 if t < tmid else cb - 100  # noqa: E731
         else:
             get_regime = lambda t, x: cb  # noqa: E731
-        Fn = m.update_orientations(make_params(par), F, getL, (t0, t0 + dt, getx), get_regime=get_regime)
+        Fn = m.update_orientations(make_params(par), F, getL, (t0, t0 + dt, getx), get_regime=get_regime, **dict(self.solver_kw))
         return Fn, fl, dt
 
     def _advance(self, name, fl, dt):
@@ -388,6 +391,7 @@ class World:
                 self.Fexp[ms[0]].copy(),
                 getL,
                 (t0, t0 + dt, getx),
+                **dict(self.solver_kw),
             )
         finally:
             # bookkeeping for the minerals that did move on (UpdateAllPartial)
@@ -432,7 +436,7 @@ class World:
 
     def _SaveCorrupt(self, act):
         m = self.minerals[act["m"]]
-        variant = (len(act["pf"]) + len(m.fractions) + sum(map(ord, act["m"]))) % 3
+        variant = (len(act["pf"]) + len(m.fractions) + sum(map(ord, act["m"]))) % 6
         path = self.file(act["f"])
         before = Path(path).read_bytes() if os.path.exists(path) else None
         listing = sorted(os.listdir(self.dir))
@@ -451,12 +455,25 @@ class World:
                     m.save(path, postfix=act["pf"])
                 finally:
                     m.n_grains = n
-            else:  # whole-file save of a corrupt mineral
+            elif variant == 2:  # whole-file save of a corrupt mineral
                 m.orientations.append(m.orientations[-1])
                 try:
                     m.save(path)
                 finally:
                     m.orientations.pop()
+            else:
+                # the LAST stored snapshot does not match the grain count (counts equal, first snapshot intact when
+                # there is more than one): volumes (3), orientations (4) under a postfix, volumes in a whole-file save (5)
+                which = m.orientations if variant == 4 else m.fractions
+                keep = which[-1]
+                which[-1] = keep[:-1] if len(keep) > 1 else np.concatenate([keep, keep])
+                try:
+                    if variant == 5:
+                        m.save(path)
+                    else:
+                        m.save(path, postfix=act["pf"])
+                finally:
+                    which[-1] = keep
         finally:
             after = Path(path).read_bytes() if os.path.exists(path) else None
             self.corrupt_wrote = (before != after) or (sorted(os.listdir(self.dir)) != listing)
@@ -704,9 +721,9 @@ def budget(n, strain):
     return 5e-3 + 1e-3 * (n + 2 * strain)
 
 
-def replay_behaviour(beh, scratch_dir, comparator, tid, events, n_override=None, rate=1.0, fcheck=True, dt=None, F0=None):
+def replay_behaviour(beh, scratch_dir, comparator, tid, events, n_override=None, rate=1.0, fcheck=True, dt=None, F0=None, solver_kw=None):
     """Run one behaviour (list of projected spec states, first = initial) on real objects."""
-    w = World(scratch_dir, n_override=n_override, rate=rate, dt=dt, F0=F0)
+    w = World(scratch_dir, n_override=n_override, rate=rate, dt=dt, F0=F0, solver_kw=solver_kw)
     # pre-built minerals: replay their construction, compare once against the initial state
     pre = beh[0].get("pre") or []
     for k, a in enumerate(pre):
@@ -800,7 +817,7 @@ TRACE_CLAUSES = {
 }
 
 
-def run_behaviours(chk, prop, behs, *, n_override=None, rate=1.0, fcheck=True, sig_extra=None, dt_of=None, F0_of=None):
+def run_behaviours(chk, prop, behs, *, n_override=None, rate=1.0, fcheck=True, sig_extra=None, dt_of=None, F0_of=None, solver_kw=None):
     """Replay behaviours, validate the recorded calls with the trace spec, and report the
     mismatches / rejections whose clause belongs to `prop`.  Returns (events, comparator)."""
     from harness.common import scratch
@@ -811,7 +828,7 @@ def run_behaviours(chk, prop, behs, *, n_override=None, rate=1.0, fcheck=True, s
         for tid, b in enumerate(behs):
             sub = d / f"b{tid}"
             sub.mkdir()
-            replay_behaviour(b, sub, comp, tid, events, n_override=n_override, rate=rate, fcheck=fcheck, dt=dt_of(tid) if dt_of else None, F0=F0_of(tid) if F0_of else None)
+            replay_behaviour(b, sub, comp, tid, events, n_override=n_override, rate=rate, fcheck=fcheck, dt=dt_of(tid) if dt_of else None, F0=F0_of(tid) if F0_of else None, solver_kw=solver_kw)
             chk.count(("beh", json.dumps([s["act"] for s in b[1:]], sort_keys=True)))
             import shutil
 
